@@ -367,6 +367,21 @@ def _z3v():
     return z3.get_version_string()
 
 
+def write_roles():
+    """baseline/roles.json: order of first bindings of the locals and loop texts of every function of the unchanged tree
+    (lets contracts that name a local or a loop survive a renaming of locals)"""
+    from pyvc.front import local_binding_order, loop_keys
+    if not _G:
+        _init()
+    roles = {}
+    for m in _G["idx"].modules.values():
+        for fi in m.functions.values():
+            roles[fi.key] = {"locals": local_binding_order(fi.node), "loops": loop_keys(fi.node)}
+    os.makedirs(os.path.join(ROOT, "baseline"), exist_ok=True)
+    json.dump(roles, open(os.path.join(ROOT, "baseline", "roles.json"), "w"), indent=0, sort_keys=True)
+    return len(roles)
+
+
 def main():
     ap = argparse.ArgumentParser()
     ap.add_argument("pid", nargs="?")
@@ -374,7 +389,11 @@ def main():
     ap.add_argument("--jobs", type=int, default=min(16, os.cpu_count() or 4))
     ap.add_argument("--replay")
     ap.add_argument("--mkbaseline", action="store_true", help="(development) record the discharged obligations of every claimed property")
+    ap.add_argument("--mkroles", action="store_true", help="(development) record locals / loops of the unchanged tree")
     a = ap.parse_args()
+    if a.mkroles:
+        print("roles written for %d functions" % write_roles())
+        sys.exit(0)
     if a.mkbaseline:
         from specs.manifest_table import CHECKS
         bp = os.path.join(ROOT, "baseline", "obligations.json")
@@ -388,6 +407,7 @@ def main():
             out[pid] = _G["last_discharged"]
         os.makedirs(os.path.join(ROOT, "baseline"), exist_ok=True)
         json.dump(out, open(os.path.join(ROOT, "baseline", "obligations.json"), "w"), indent=0)
+        write_roles()
         print("baseline written: %d obligations" % sum(len(v) for v in out.values()))
         sys.exit(0)
     seed = int(os.environ.get("VERIF_SEED", "0") or 0)
